@@ -20,7 +20,7 @@ MANIFEST = dict(
          "crate and compared; the strict parser and the forge are themselves checked against liblzma's files (WellFormed must hold).",
     ref="4.2, 4.8, 5.2, 5.3, 6/C03",
     note="Interoperability is established for the explored inputs and configurations only; liblzma has no lzip encoder, so .lz is checked "
-         "in the direction ours -> liblzma only; the reference's extreme presets are covered through explicit nice/mf/mode/depth rows; "
+         "in the direction ours -> liblzma only; "
          "dictionaries are limited to 1 MiB (quick) / 8 MiB (thorough) on the reference side.",
     ready=True)
 
